@@ -21,6 +21,10 @@ type kvGen struct {
 	flush   []string // names of flushable / lazy flushable stores
 	tabs    map[string][]byte
 	tabList [][]byte
+	parent  map[string]string
+	syncedS map[string]bool
+	isFlush map[string]bool
+	backend string
 	snaps   int
 	opNo    int
 }
@@ -114,14 +118,36 @@ func (g *kvGen) iterArgs() (string, string) {
 	return ps, ss
 }
 
-func (g *kvGen) batchOps() string {
+func (g *kvGen) batchOps() string { return g.batchOpsFor("", false) }
+
+// replayLosesEmpty: a batch created on store s ends in a goleveldb batch. Its Replay hands an empty
+// value to the writer as nil, which a flushable writer takes for a deletion (and kvdb/leveldb's
+// Replay swallows the writer's error): reported as a defect candidate, not generated.
+func (g *kvGen) replayLosesEmpty(s string) bool {
+	if g.backend != "ldb" {
+		return false
+	}
+	for x := s; x != ""; x = g.parent[x] {
+		if g.isFlush[x] {
+			return false
+		}
+	}
+	return true
+}
+
+func (g *kvGen) batchOpsFor(s string, replay bool) string {
 	n := 1 + g.r.Intn(5)
+	noEmpty := replay && g.replayLosesEmpty(s)
 	var parts []string
 	for i := 0; i < n; i++ {
 		if g.r.Chance(1, 3) {
 			parts = append(parts, "d:"+HexOf(g.key()))
 		} else {
-			parts = append(parts, "p:"+HexOf(g.key())+":"+g.val())
+			v := g.val()
+			if noEmpty && v == "-" {
+				v = "00"
+			}
+			parts = append(parts, "p:"+HexOf(g.key())+":"+v)
 		}
 	}
 	return strings.Join(parts, ",")
@@ -151,9 +177,16 @@ func (g *kvGen) dataOp(w *bufio.Writer, s string) {
 	case x < 86:
 		switch g.r.Intn(5) {
 		case 0:
-			fmt.Fprintf(w, "batch %s r %s %s\n", s, g.stores[g.r.Intn(len(g.stores))], g.batchOps())
+			tg := g.stores[g.r.Intn(len(g.stores))]
+			mode := "r"
+			if g.sharesMutex(s, tg) {
+				// syncedBatch.Replay holds the store's mutex while it calls the writer: replaying into a
+				// store behind the same mutex dead-locks (reported as a defect candidate, not generated)
+				mode = "rb"
+			}
+			fmt.Fprintf(w, "batch %s %s %s %s\n", s, mode, tg, g.batchOpsFor(s, true))
 		case 1:
-			fmt.Fprintf(w, "batch %s rb %s %s\n", s, g.stores[g.r.Intn(len(g.stores))], g.batchOps())
+			fmt.Fprintf(w, "batch %s rb %s %s\n", s, g.stores[g.r.Intn(len(g.stores))], g.batchOpsFor(s, true))
 		default:
 			fmt.Fprintf(w, "batch %s w %s\n", s, g.batchOps())
 		}
@@ -229,7 +262,28 @@ func (g *kvGen) relatedPrefix(p []byte) []byte {
 	return g.tablePrefix()
 }
 
+// sharesMutex: some synced wrapper lies both below-or-at a and below-or-at b
+func (g *kvGen) sharesMutex(a, b string) bool {
+	for x := a; x != ""; x = g.parent[x] {
+		if !g.syncedS[x] {
+			continue
+		}
+		for y := b; y != ""; y = g.parent[y] {
+			if x == y {
+				return true
+			}
+		}
+	}
+	return false
+}
+
 func (g *kvGen) wrap(w *bufio.Writer, name, inner, kind string, p []byte) {
+	if g.parent == nil {
+		g.parent, g.syncedS, g.isFlush = map[string]string{}, map[string]bool{}, map[string]bool{}
+	}
+	g.parent[name] = inner
+	g.syncedS[name] = kind == "s"
+	g.isFlush[name] = kind == "f" || kind == "lf"
 	if kind == "t" {
 		fmt.Fprintf(w, "wrap %s %s t %s\n", name, inner, HexOf(p))
 		g.tabs[name] = p
@@ -247,6 +301,7 @@ func genKV(stream string, r *Rand, n int, tier string, w *bufio.Writer) {
 	for c := 0; c < n; c++ {
 		g := &kvGen{r: r, stores: []string{"b"}, tabs: map[string][]byte{}}
 		backend := []string{"mem", "mem", "mem", "mem", "ldb", "ldb", "ldb", "pbl", "pbl", "pbl"}[r.Intn(10)]
+		g.backend = backend
 		fmt.Fprintf(w, "# case %d %s %s\n", c, stream, backend)
 		fmt.Fprintf(w, "open %s\n", backend)
 		nops := 20 + r.Intn(40)
